@@ -423,6 +423,10 @@ def headStep (p : Pos) (h : HeadFS) : Nat → HeadFS
   | 3 => { head := h.tmp, tmp := none }
   | _ => h
 
+/-- the file-system operations `headStep 0 … 3` stand for, in the order `write_head` performs them; the harness records the
+operations the real `write_head` performs (through wrapped `open`/`os.rename`) and compares the order with this list -/
+def headStepNames : List String := ["open", "write", "close", "rename"]
+
 /-- the first `k` steps (k ≥ 4: all of them) -/
 def headSteps (p : Pos) (h : HeadFS) : Nat → HeadFS
   | 0 => h
